@@ -455,26 +455,13 @@ class SP(Robot):
         if degrees:
             rot = fsr.deg2Rad(rot)
         old_base_pos = self.getBottomT()
-        self.move(tm())
-        top_joints_copy = self._top_joints_space.copy()
-        bottom_joints_copy = self._bottom_joints_space.copy()
-        top_joints_origin_copy = self._top_joints_local[2, 0:6]
-        bottom_joints_origin_copy = self._bottom_joints_local[2, 0:6]
-        rotation_transform = tm([0, 0, 0, 0, 0, rot])
-        self.move(rotation_transform)
-        top_joints_space_new = self._top_joints_space.copy()
-        bottom_joints_space_new = self._bottom_joints_space.copy()
-        top_joints_copy[0:2, 0:6] = top_joints_space_new[0:2, 0:6]
-        bottom_joints_copy[0:2, 0:6] = bottom_joints_space_new[0:2, 0:6]
-        bottom_joints_copy[2, 0:6] = bottom_joints_origin_copy
-        top_joints_copy[2, 0:6] = top_joints_origin_copy
-        self.move(tm())
-        self._bottom_joints_local = bottom_joints_copy
-        self._top_joints_local = top_joints_copy
+        # The joints turn about the plate axis in the plates' own frames, whatever pose the platform is in
+        # (reading them back from the space frame only worked with the top plate level over the base).
+        rotation = tm([0, 0, 0, 0, 0, rot]).gTM()[0:3, 0:3]
+        self._bottom_joints_local = rotation @ self._bottom_joints_local
+        self._top_joints_local = rotation @ self._top_joints_local
         self._bottom_joints_init = self._bottom_joints_local.conj().transpose()
         self._top_joints_init = self._top_joints_local.conj().transpose()
-        self._bottom_joints_space = bottom_joints_space_new
-        self._top_joints_space = top_joints_space_new
         self.move(old_base_pos)
 
 
